@@ -440,7 +440,9 @@ def representations(ctx):
 
 
 def replay(ctx, rep):
-    c = rep["input"]["case"]
+    c = (rep.get("case") or rep.get("input") or {}).get("case")
+    if not isinstance(c, dict) or "backend" not in c:
+        raise SystemExit("replay: re-run ./check C09 with VERIF_SEED=%s" % rep.get("seed"))
     be = c["backend"]
     if be in ("tf", "numpy_with_tf"):
         res = run_tf([c])[0]
